@@ -19,6 +19,7 @@ class Script:
 
 class FakePort:
     """write / readline consume one script event each; ('L', text) = that line, 'E' = nothing arrives / write ok, 'F' = SerialException"""
+    port = "/dev/ttyACM0"          # pyserial's Serial objects carry their device name; every fake board here sits on the same one
     def __init__(self, script, close_raises=False):
         self.script = script
         self.writes = []
